@@ -172,16 +172,20 @@ theorem ballStep_spec {sqrt : K → K} (hs : SqrtSpec sqrt) {zt : K} (n : Nat) (
 
 /-! ### the loop invariant -/
 
+theorem sumTo_congr {n : Nat} {f h : Nat → K} (hfh : ∀ i < n, f i = h i) : sumTo n f = sumTo n h := by
+  rw [sumTo_eq_sum, sumTo_eq_sum]
+  exact Finset.sum_congr rfl fun i hi => hfh i (Finset.mem_range.mp hi)
+
 /-- invariant of the active-set loop; `T` is the common ray parameter of the free coordinates. -/
 structure Inv (n : Nat) (zt Δ : K) (g a b : Nat → K) (st : LinState K) (T : K) : Prop where
   T_nonneg : 0 ≤ T
-  cons_dirn : ∀ k < n, k ∈ st.cons → st.dirn k = 0
-  cons_box : ∀ k < n, k ∈ st.cons → a k ≤ st.x k ∧ st.x k ≤ b k
-  free_ray : ∀ k < n, k ∉ st.cons → st.x k = T * st.dirn k
-  free_dirn : ∀ k < n, k ∉ st.cons → st.dirn k = -g k
-  free_big : ∀ k < n, k ∉ st.cons → zt ≤ |st.dirn k|
-  ball : sumTo n (fun i => st.x i * st.x i) ≤ Δ * Δ
-  descent : ∀ k < n, g k * st.x k ≤ 0
+  cons_dirn : ∀ k < n, k ∈ st.cons → st.df k = 0
+  cons_box : ∀ k < n, k ∈ st.cons → a k ≤ st.xf k ∧ st.xf k ≤ b k
+  free_ray : ∀ k < n, k ∉ st.cons → st.xf k = T * st.df k
+  free_dirn : ∀ k < n, k ∉ st.cons → st.df k = -g k
+  free_big : ∀ k < n, k ∉ st.cons → zt ≤ |st.df k|
+  ball : sumTo n (fun i => st.xf i * st.xf i) ≤ Δ * Δ
+  descent : ∀ k < n, g k * st.xf k ≤ 0
 
 /-- what the routine promises about its result -/
 def Good (n : Nat) (Δ : K) (g a b x : Nat → K) : Prop :=
@@ -216,25 +220,29 @@ theorem nfree_append {n : Nat} {cons : List Nat} {j : Nat} (hj : j < n) (hjc : j
     parameter `T'`), where `xU = x + (U - T)·dirn` is a point of the ball. -/
 theorem inv_fixAt {n : Nat} {zt Δ : K} {g a b : Nat → K} {st : LinState K} {T : K}
     (hI : Inv n zt Δ g a b st T) {j : Nat} (hj : j < n) (hjc : j ∉ st.cons) (bd αu : K)
-    (hbd : a j ≤ bd ∧ bd ≤ b j) (hdj : st.dirn j ≠ 0)
-    (hT'0 : 0 ≤ bd / st.dirn j) (hT'U : bd / st.dirn j ≤ T + αu)
-    (hballU : sumTo n (fun i => (st.x i + αu * st.dirn i) * (st.x i + αu * st.dirn i)) ≤ Δ * Δ) :
-    Inv n zt Δ g a b (fixAt st j bd) (bd / st.dirn j) := by
-  set T' := bd / st.dirn j with hT'
-  have hbdT : bd = T' * st.dirn j := by rw [hT']; field_simp
-  have hac : (bd - st.x j) / st.dirn j = T' - T := by
+    (hbd : a j ≤ bd ∧ bd ≤ b j) (hdj : st.df j ≠ 0)
+    (hT'0 : 0 ≤ bd / st.df j) (hT'U : bd / st.df j ≤ T + αu)
+    (hballU : sumTo n (fun i => (st.xf i + αu * st.df i) * (st.xf i + αu * st.df i)) ≤ Δ * Δ) :
+    Inv n zt Δ g a b (fixAt n st j bd) (bd / st.df j) := by
+  set T' := bd / st.df j with hT'
+  have hbdT : bd = T' * st.df j := by rw [hT']; field_simp
+  have hac : (bd - st.xf j) / st.df j = T' - T := by
     rw [hI.free_ray j hj hjc, hT']; field_simp
-  have hx' : ∀ k, (fixAt st j bd).x k = if k = j then bd else st.x k + (T' - T) * st.dirn k := by
-    intro k; simp only [fixAt, hac]
-  have hd' : ∀ k, (fixAt st j bd).dirn k = if k = j then 0 else st.dirn k := by
-    intro k; simp only [fixAt]
-  have hc' : (fixAt st j bd).cons = st.cons ++ [j] := rfl
-  have hfree : ∀ k, k ∉ (fixAt st j bd).cons → k ≠ j ∧ k ∉ st.cons := by
+  have hx' : ∀ k < n, (fixAt n st j bd).xf k = if k = j then bd else st.xf k + (T' - T) * st.df k := by
+    intro k hk
+    have h0 : (fixAt n st j bd).xf k = if k = j then bd else st.xf k + (bd - st.xf j) / st.df j * st.df k :=
+      vget_vmk n (fun i => if i = j then bd else st.xf i + (bd - st.xf j) / st.df j * st.df i) k hk
+    rw [h0, hac]
+  have hd' : ∀ k < n, (fixAt n st j bd).df k = if k = j then 0 else st.df k := by
+    intro k hk
+    exact vget_vmk n (fun i => if i = j then 0 else st.df i) k hk
+  have hc' : (fixAt n st j bd).cons = st.cons ++ [j] := rfl
+  have hfree : ∀ k, k ∉ (fixAt n st j bd).cons → k ≠ j ∧ k ∉ st.cons := by
     intro k hk
     rw [hc'] at hk
     simp only [List.mem_append, List.mem_singleton, not_or] at hk
     exact ⟨hk.2, hk.1⟩
-  have hcons : ∀ k, k ∈ (fixAt st j bd).cons → k = j ∨ (k ≠ j ∧ k ∈ st.cons) := by
+  have hcons : ∀ k, k ∈ (fixAt n st j bd).cons → k = j ∨ (k ≠ j ∧ k ∈ st.cons) := by
     intro k hk
     rw [hc'] at hk
     simp only [List.mem_append, List.mem_singleton] at hk
@@ -244,50 +252,50 @@ theorem inv_fixAt {n : Nat} {zt Δ : K} {g a b : Nat → K} {st : LinState K} {T
       · exact Or.inr ⟨hkj, hk⟩
       · exact absurd hk hkj
   -- componentwise domination by the trial point
-  have hdom : ∀ k < n, (fixAt st j bd).x k * (fixAt st j bd).x k ≤
-      (st.x k + αu * st.dirn k) * (st.x k + αu * st.dirn k) := by
+  have hdom : ∀ k < n, (fixAt n st j bd).xf k * (fixAt n st j bd).xf k ≤
+      (st.xf k + αu * st.df k) * (st.xf k + αu * st.df k) := by
     intro k hk
     by_cases hkc : k ∈ st.cons
     · have hkj : k ≠ j := fun h => hjc (h ▸ hkc)
-      rw [hx' k, if_neg hkj, hI.cons_dirn k hk hkc]; simp
-    · have hxk : (fixAt st j bd).x k = T' * st.dirn k := by
-        rw [hx' k]
+      rw [hx' k hk, if_neg hkj, hI.cons_dirn k hk hkc]; simp
+    · have hxk : (fixAt n st j bd).xf k = T' * st.df k := by
+        rw [hx' k hk]
         by_cases hkj : k = j
         · rw [if_pos hkj, hkj]; exact hbdT
         · rw [if_neg hkj, hI.free_ray k hk hkc]; ring
       rw [hxk, hI.free_ray k hk hkc]
-      have h1 : T * st.dirn k + αu * st.dirn k = (T + αu) * st.dirn k := by ring
+      have h1 : T * st.df k + αu * st.df k = (T + αu) * st.df k := by ring
       rw [h1]
       have h2 : T' * T' ≤ (T + αu) * (T + αu) := mul_self_le_mul_self hT'0 hT'U
-      have h3 : 0 ≤ st.dirn k * st.dirn k := mul_self_nonneg _
+      have h3 : 0 ≤ st.df k * st.df k := mul_self_nonneg _
       nlinarith [mul_le_mul_of_nonneg_right h2 h3]
   refine ⟨hT'0, ?_, ?_, ?_, ?_, ?_, ?_, ?_⟩
   · intro k hk hkc
     rcases hcons k hkc with rfl | ⟨hkj, hkc'⟩
-    · rw [hd' k, if_pos rfl]
-    · rw [hd' k, if_neg hkj]; exact hI.cons_dirn k hk hkc'
+    · rw [hd' k hk, if_pos rfl]
+    · rw [hd' k hk, if_neg hkj]; exact hI.cons_dirn k hk hkc'
   · intro k hk hkc
     rcases hcons k hkc with rfl | ⟨hkj, hkc'⟩
-    · rw [hx' k, if_pos rfl]; exact hbd
-    · rw [hx' k, if_neg hkj, hI.cons_dirn k hk hkc']; simpa using hI.cons_box k hk hkc'
+    · rw [hx' k hk, if_pos rfl]; exact hbd
+    · rw [hx' k hk, if_neg hkj, hI.cons_dirn k hk hkc']; simpa using hI.cons_box k hk hkc'
   · intro k hk hkc
     obtain ⟨hkj, hkc'⟩ := hfree k hkc
-    rw [hx' k, if_neg hkj, hd' k, if_neg hkj, hI.free_ray k hk hkc']; ring
+    rw [hx' k hk, if_neg hkj, hd' k hk, if_neg hkj, hI.free_ray k hk hkc']; ring
   · intro k hk hkc
     obtain ⟨hkj, hkc'⟩ := hfree k hkc
-    rw [hd' k, if_neg hkj]; exact hI.free_dirn k hk hkc'
+    rw [hd' k hk, if_neg hkj]; exact hI.free_dirn k hk hkc'
   · intro k hk hkc
     obtain ⟨hkj, hkc'⟩ := hfree k hkc
-    rw [hd' k, if_neg hkj]; exact hI.free_big k hk hkc'
+    rw [hd' k hk, if_neg hkj]; exact hI.free_big k hk hkc'
   · refine le_trans ?_ hballU
     rw [sumTo_eq_sum, sumTo_eq_sum]
     exact Finset.sum_le_sum fun k hk => hdom k (Finset.mem_range.mp hk)
   · intro k hk
     by_cases hkc : k ∈ st.cons
     · have hkj : k ≠ j := fun h => hjc (h ▸ hkc)
-      rw [hx' k, if_neg hkj, hI.cons_dirn k hk hkc]; simpa using hI.descent k hk
-    · have hxk : (fixAt st j bd).x k = T' * st.dirn k := by
-        rw [hx' k]
+      rw [hx' k hk, if_neg hkj, hI.cons_dirn k hk hkc]; simpa using hI.descent k hk
+    · have hxk : (fixAt n st j bd).xf k = T' * st.df k := by
+        rw [hx' k hk]
         by_cases hkj : k = j
         · rw [if_pos hkj, hkj]; exact hbdT
         · rw [if_neg hkj, hI.free_ray k hk hkc]; ring
@@ -297,34 +305,39 @@ theorem inv_fixAt {n : Nat} {zt Δ : K} {g a b : Nat → K} {st : LinState K} {T
 theorem dot_exact (sqrt : K → K) (zt : K) (n : Nat) (u v : Nat → K) :
     dot (exactNum sqrt zt) n u v = sumTo n fun i => u i * v i := rfl
 
+/-- the trial point of line 653, componentwise -/
+theorem vget_trial (N : Num K) (n : Nat) (Δ : K) (st : LinState K) (k : Nat) (hk : k < n) :
+    vget (trial N n Δ st) k = st.xf k + ballStep N n st.xf st.df Δ * st.df k := by
+  exact vget_vmk n (fun i => st.xf i + ballStep N n st.xf st.df Δ * st.df i) k hk
+
 /-- one pass of the loop body: either returns a good point, or re-establishes the invariant with one
     free coordinate fewer. -/
 theorem linStep_spec {sqrt : K → K} (hs : SqrtSpec sqrt) {zt : K} (hzt : 0 < zt) {n : Nat} {Δ : K}
     {g a b : Nat → K} (ha : ∀ k < n, a k < 0) (hb : ∀ k < n, 0 < b k)
     {st : LinState K} {T : K} (hI : Inv n zt Δ g a b st T) :
-    (∀ x, linStep (exactNum sqrt zt) n a b Δ st = .inl x → Good n Δ g a b x) ∧
+    (∀ x, linStep (exactNum sqrt zt) n a b Δ st = .inl x → Good n Δ g a b (vget x)) ∧
     (∀ st', linStep (exactNum sqrt zt) n a b Δ st = .inr st' →
       (∃ T', Inv n zt Δ g a b st' T') ∧ nfree n st'.cons + 1 ≤ nfree n st.cons) := by
   unfold linStep
-  by_cases hsmall : sqrt (sumTo n fun i => st.dirn i * st.dirn i) < zt
+  by_cases hsmall : sqrt (sumTo n fun i => st.df i * st.df i) < zt
   · -- lines 650-651: no free coordinate is left
-    have hcond : (exactNum sqrt zt).sqrt (dot (exactNum sqrt zt) n st.dirn st.dirn) < (exactNum sqrt zt).zt := hsmall
+    have hcond : (exactNum sqrt zt).sqrt (dot (exactNum sqrt zt) n st.df st.df) < (exactNum sqrt zt).zt := hsmall
     rw [if_pos hcond]
     have hall : ∀ k < n, k ∈ st.cons := by
       intro k hk
       by_contra hkc
       have hbig := hI.free_big k hk hkc
-      have hnn : 0 ≤ sumTo n fun i => st.dirn i * st.dirn i := by
+      have hnn : 0 ≤ sumTo n fun i => st.df i * st.df i := by
         rw [sumTo_eq_sum]; exact Finset.sum_nonneg fun i _ => mul_self_nonneg _
       have hsq := hs _ hnn
-      have hle : st.dirn k * st.dirn k ≤ sumTo n fun i => st.dirn i * st.dirn i := by
+      have hle : st.df k * st.df k ≤ sumTo n fun i => st.df i * st.df i := by
         rw [sumTo_eq_sum]
-        exact Finset.single_le_sum (f := fun i => st.dirn i * st.dirn i) (fun i _ => mul_self_nonneg _)
+        exact Finset.single_le_sum (f := fun i => st.df i * st.df i) (fun i _ => mul_self_nonneg _)
           (Finset.mem_range.mpr hk)
-      have h1 : zt * zt ≤ st.dirn k * st.dirn k := by
-        rw [← abs_mul_abs_self (st.dirn k)]
+      have h1 : zt * zt ≤ st.df k * st.df k := by
+        rw [← abs_mul_abs_self (st.df k)]
         exact mul_self_le_mul_self hzt.le hbig
-      have h2 : sqrt (sumTo n fun i => st.dirn i * st.dirn i) * sqrt (sumTo n fun i => st.dirn i * st.dirn i)
+      have h2 : sqrt (sumTo n fun i => st.df i * st.df i) * sqrt (sumTo n fun i => st.df i * st.df i)
           < zt * zt := mul_self_lt_mul_self hsq.1 hsmall
       rw [hsq.2] at h2
       linarith
@@ -332,31 +345,35 @@ theorem linStep_spec {sqrt : K → K} (hs : SqrtSpec sqrt) {zt : K} (hzt : 0 < z
     injection hx with hx
     subst hx
     exact ⟨fun k hk => hI.cons_box k hk (hall k hk), hI.ball, hI.descent⟩
-  · have hcond : ¬ (exactNum sqrt zt).sqrt (dot (exactNum sqrt zt) n st.dirn st.dirn) < (exactNum sqrt zt).zt := hsmall
+  · have hcond : ¬ (exactNum sqrt zt).sqrt (dot (exactNum sqrt zt) n st.df st.df) < (exactNum sqrt zt).zt := hsmall
     rw [if_neg hcond]
-    obtain ⟨hα0, hαball⟩ := ballStep_spec hs n st.x st.dirn Δ hsmall hzt hI.ball
-    set αu := ballStep (exactNum sqrt zt) n st.x st.dirn Δ with hαu
+    obtain ⟨hα0, hαball⟩ := ballStep_spec hs n st.xf st.df Δ hsmall hzt hI.ball
+    have htr : ∀ k < n, vget (trial (exactNum sqrt zt) n Δ st) k =
+        st.xf k + ballStep (exactNum sqrt zt) n st.xf st.df Δ * st.df k :=
+      fun k hk => vget_trial _ n Δ st k hk
+    set αu := ballStep (exactNum sqrt zt) n st.xf st.df Δ with hαu
     have hU0 : 0 ≤ T + αu := add_nonneg hI.T_nonneg hα0
-    have hxfree : ∀ k < n, k ∉ st.cons → st.x k + αu * st.dirn k = (T + αu) * st.dirn k := by
+    have hxfree : ∀ k < n, k ∉ st.cons → st.xf k + αu * st.df k = (T + αu) * st.df k := by
       intro k hk hkc; rw [hI.free_ray k hk hkc]; ring
-    dsimp only
-    cases hscan : scan st.cons (fun i => st.x i + αu * st.dirn i) a b (List.range n) with
+    have hballT : sumTo n (fun i => vget (trial (exactNum sqrt zt) n Δ st) i * vget (trial (exactNum sqrt zt) n Δ st) i) = Δ * Δ := by
+      rw [← hαball]
+      exact sumTo_congr fun i hi => by rw [htr i hi]
+    cases hscan : scan st.cons (vget (trial (exactNum sqrt zt) n Δ st)) a b (List.range n) with
     | none =>
       -- no bound reached: return the trial point (lines 672-673)
       refine ⟨fun x hx => ?_, fun st' h => (by cases h)⟩
       injection hx with hx
       subst hx
-      refine ⟨?_, le_of_eq hαball, ?_⟩
+      refine ⟨?_, le_of_eq hballT, ?_⟩
       · intro k hk
         by_cases hkc : k ∈ st.cons
-        · simp only [hI.cons_dirn k hk hkc, mul_zero, add_zero]; exact hI.cons_box k hk hkc
+        · rw [htr k hk, hI.cons_dirn k hk hkc, mul_zero, add_zero]; exact hI.cons_box k hk hkc
         · have := scan_none hscan k (List.mem_range.mpr hk) hkc
           exact ⟨this.1.le, this.2.le⟩
       · intro k hk
         by_cases hkc : k ∈ st.cons
-        · simp only [hI.cons_dirn k hk hkc, mul_zero, add_zero]; exact hI.descent k hk
-        · show g k * (st.x k + αu * st.dirn k) ≤ 0
-          rw [hxfree k hk hkc, hI.free_dirn k hk hkc]
+        · rw [htr k hk, hI.cons_dirn k hk hkc, mul_zero, add_zero]; exact hI.descent k hk
+        · rw [htr k hk, hxfree k hk hkc, hI.free_dirn k hk hkc]
           nlinarith [mul_nonneg hU0 (mul_self_nonneg (g k))]
     | lower j =>
       -- lower bound of coordinate j reached
@@ -365,13 +382,13 @@ theorem linStep_spec {sqrt : K → K} (hs : SqrtSpec sqrt) {zt : K} (hzt : 0 < z
       subst hst
       obtain ⟨hjl, hjc, hle⟩ := scan_lower hscan
       have hj : j < n := List.mem_range.mp hjl
-      rw [hxfree j hj hjc] at hle
+      rw [htr j hj, hxfree j hj hjc] at hle
       have haj := ha j hj
-      have hdneg : st.dirn j < 0 := by
+      have hdneg : st.df j < 0 := by
         by_contra hnn
-        have : 0 ≤ (T + αu) * st.dirn j := mul_nonneg hU0 (not_lt.mp hnn)
+        have : 0 ≤ (T + αu) * st.df j := mul_nonneg hU0 (not_lt.mp hnn)
         linarith
-      exact ⟨⟨a j / st.dirn j, inv_fixAt hI hj hjc (a j) αu ⟨le_rfl, (haj.trans (hb j hj)).le⟩ (ne_of_lt hdneg)
+      exact ⟨⟨a j / st.df j, inv_fixAt hI hj hjc (a j) αu ⟨le_rfl, (haj.trans (hb j hj)).le⟩ (ne_of_lt hdneg)
         (div_nonneg_of_nonpos haj.le hdneg.le) ((div_le_iff_of_neg hdneg).mpr hle) (le_of_eq hαball)⟩,
         nfree_append hj hjc⟩
     | upper j =>
@@ -381,13 +398,13 @@ theorem linStep_spec {sqrt : K → K} (hs : SqrtSpec sqrt) {zt : K} (hzt : 0 < z
       subst hst
       obtain ⟨hjl, hjc, hge⟩ := scan_upper hscan
       have hj : j < n := List.mem_range.mp hjl
-      rw [hxfree j hj hjc] at hge
+      rw [htr j hj, hxfree j hj hjc] at hge
       have hbj := hb j hj
-      have hdpos : 0 < st.dirn j := by
+      have hdpos : 0 < st.df j := by
         by_contra hnp
-        have : (T + αu) * st.dirn j ≤ 0 := mul_nonpos_of_nonneg_of_nonpos hU0 (not_lt.mp hnp)
+        have : (T + αu) * st.df j ≤ 0 := mul_nonpos_of_nonneg_of_nonpos hU0 (not_lt.mp hnp)
         linarith
-      exact ⟨⟨b j / st.dirn j, inv_fixAt hI hj hjc (b j) αu ⟨((ha j hj).trans hbj).le, le_rfl⟩ (ne_of_gt hdpos)
+      exact ⟨⟨b j / st.df j, inv_fixAt hI hj hjc (b j) αu ⟨((ha j hj).trans hbj).le, le_rfl⟩ (ne_of_gt hdpos)
         (div_nonneg hbj.le hdpos.le) ((div_le_iff₀ hdpos).mpr hge) (le_of_eq hαball)⟩,
         nfree_append hj hjc⟩
 
@@ -395,7 +412,7 @@ theorem linStep_spec {sqrt : K → K} (hs : SqrtSpec sqrt) {zt : K} (hzt : 0 < z
 theorem linLoop_good {sqrt : K → K} (hs : SqrtSpec sqrt) {zt : K} (hzt : 0 < zt) {n : Nat} {Δ : K}
     {g a b : Nat → K} (ha : ∀ k < n, a k < 0) (hb : ∀ k < n, 0 < b k) :
     ∀ (f : Nat) (st : LinState K) (T : K), Inv n zt Δ g a b st T → nfree n st.cons ≤ f →
-      Good n Δ g a b (linLoop (exactNum sqrt zt) n a b Δ f st) := by
+      Good n Δ g a b (vget (linLoop (exactNum sqrt zt) n a b Δ f st)) := by
   intro f
   induction f with
   | zero =>
@@ -417,7 +434,7 @@ theorem linLoop_good {sqrt : K → K} (hs : SqrtSpec sqrt) {zt : K} (hzt : 0 < z
 theorem trsboxLinear_good {sqrt : K → K} (hs : SqrtSpec sqrt) {zt : K} (hzt : 0 < zt) (n : Nat)
     (g aIn bIn : Nat → K) (Δ : K) :
     Good n Δ g (widenLo (exactNum sqrt zt) aIn) (widenHi (exactNum sqrt zt) bIn)
-      (trsboxLinear (exactNum sqrt zt) n g aIn bIn Δ) := by
+      (vget (trsboxLinear (exactNum sqrt zt) n g aIn bIn Δ)) := by
   have ha : ∀ k < n, widenLo (exactNum sqrt zt) aIn k < 0 := by
     intro k _
     have : widenLo (exactNum sqrt zt) aIn k ≤ -zt := minv_le_right _ _
@@ -431,28 +448,34 @@ theorem trsboxLinear_good {sqrt : K → K} (hs : SqrtSpec sqrt) {zt : K} (hzt : 
   · have hmem : ∀ k, k ∈ (initState (exactNum sqrt zt) n g).cons ↔ k < n ∧ |(-(g k))| < zt := by
       intro k
       simp [initState, initCons, exactNum, absv_eq_abs]
-    have hdirn : ∀ k, (initState (exactNum sqrt zt) n g).dirn k = if |(-(g k))| < zt then 0 else -(g k) := by
-      intro k
-      simp [initState, initDirn, exactNum, absv_eq_abs]
+    have hdirn : ∀ k < n, (initState (exactNum sqrt zt) n g).df k = if |(-(g k))| < zt then 0 else -(g k) := by
+      intro k hk
+      have := vget_vmk n (initDirn (exactNum sqrt zt) g) k hk
+      simp only [initDirn, exactNum, absv_eq_abs] at this
+      exact this
+    have hx0 : ∀ k < n, (initState (exactNum sqrt zt) n g).xf k = 0 := by
+      intro k hk
+      exact vget_vmk n (fun _ => (0 : K)) k hk
     refine ⟨le_rfl, ?_, ?_, ?_, ?_, ?_, ?_, ?_⟩
-    · intro k _ hkc
-      rw [hdirn k, if_pos ((hmem k).mp hkc).2]
+    · intro k hk hkc
+      rw [hdirn k hk, if_pos ((hmem k).mp hkc).2]
     · intro k hk _
+      rw [hx0 k hk]
       exact ⟨(ha k hk).le, (hb k hk).le⟩
-    · intro k _ _
-      simp [initState]
+    · intro k hk _
+      rw [hx0 k hk]; simp
     · intro k hk hkc
       have : ¬ |(-(g k))| < zt := fun h => hkc ((hmem k).mpr ⟨hk, h⟩)
-      rw [hdirn k, if_neg this]
+      rw [hdirn k hk, if_neg this]
     · intro k hk hkc
       have : ¬ |(-(g k))| < zt := fun h => hkc ((hmem k).mpr ⟨hk, h⟩)
-      rw [hdirn k, if_neg this]
+      rw [hdirn k hk, if_neg this]
       exact not_lt.mp this
-    · have : sumTo n (fun i => (initState (exactNum sqrt zt) n g).x i * (initState (exactNum sqrt zt) n g).x i) = 0 := by
-        rw [sumTo_eq_sum]; simp [initState]
+    · have : sumTo n (fun i => (initState (exactNum sqrt zt) n g).xf i * (initState (exactNum sqrt zt) n g).xf i) = 0 := by
+        rw [sumTo_congr (h := fun _ => 0) fun i hi => by rw [hx0 i hi, mul_zero], sumTo_eq_sum]; simp
       rw [this]; exact mul_self_nonneg Δ
-    · intro k _
-      simp [initState]
+    · intro k hk
+      rw [hx0 k hk]; simp
   · unfold nfree
     calc ((Finset.range n).filter fun k => k ∉ (initState (exactNum sqrt zt) n g).cons).card
         ≤ (Finset.range n).card := Finset.card_filter_le _ _
@@ -468,20 +491,20 @@ theorem dot_nonpos_of_good {n : Nat} {Δ : K} {g a b x : Nat → K} (h : Good n 
 /-- **never worse than not moving** (exact): `|c + g·s| ≥ |c|` for the step chosen at lines 714-717. -/
 theorem geomStep_not_worse {sqrt : K → K} (hs : SqrtSpec sqrt) {zt : K} (hzt : 0 < zt) (n : Nat)
     (xbase : Nat → K) (c : K) (g lower upper : Nat → K) (Δ : K) :
-    |c| ≤ |c + sumTo n fun i => g i * geomStep (exactNum sqrt zt) n xbase c g lower upper Δ i| := by
-  have hmin := dot_nonpos_of_good
-    (trsboxLinear_good hs hzt n g (fun i => lower i - xbase i) (fun i => upper i - xbase i) Δ)
+    |c| ≤ |c + sumTo n fun i => g i * vget (geomStep (exactNum sqrt zt) n xbase c g lower upper Δ) i| := by
+  have hmin : (sumTo n fun i => g i * vget (geomSmin (exactNum sqrt zt) n xbase g lower upper Δ) i) ≤ 0 :=
+    dot_nonpos_of_good
+      (trsboxLinear_good hs hzt n g (fun i => lower i - xbase i) (fun i => upper i - xbase i) Δ)
   have hmax' := dot_nonpos_of_good
     (trsboxLinear_good hs hzt n (fun i => -(g i)) (fun i => lower i - xbase i) (fun i => upper i - xbase i) Δ)
-  have hmax : 0 ≤ sumTo n fun i => g i * geomSmax (exactNum sqrt zt) n xbase g lower upper Δ i := by
-    have : (sumTo n fun i => -(g i) * trsboxLinear (exactNum sqrt zt) n (fun i => -(g i))
-        (fun i => lower i - xbase i) (fun i => upper i - xbase i) Δ i) =
-        -(sumTo n fun i => g i * geomSmax (exactNum sqrt zt) n xbase g lower upper Δ i) := by
+  have hmax : 0 ≤ sumTo n fun i => g i * vget (geomSmax (exactNum sqrt zt) n xbase g lower upper Δ) i := by
+    have : (sumTo n fun i => -(g i) * vget (trsboxLinear (exactNum sqrt zt) n (fun i => -(g i))
+        (fun i => lower i - xbase i) (fun i => upper i - xbase i) Δ) i) =
+        -(sumTo n fun i => g i * vget (geomSmax (exactNum sqrt zt) n xbase g lower upper Δ) i) := by
       rw [sumTo_eq_sum, sumTo_eq_sum, ← Finset.sum_neg_distrib]
       exact Finset.sum_congr rfl fun i _ => by simp [geomSmax]
     rw [this] at hmax'
     linarith
-  have hmin : (sumTo n fun i => g i * geomSmin (exactNum sqrt zt) n xbase g lower upper Δ i) ≤ 0 := hmin
   unfold geomStep
   split_ifs with hch
   · -- smin chosen: |c + g·smax| ≤ |c + g·smin|
@@ -500,13 +523,14 @@ theorem geomStep_not_worse {sqrt : K → K} (hs : SqrtSpec sqrt) {zt : K} (hzt :
 /-- the geometry step lies in the widened box around `xbase` and in the ball (exact). -/
 theorem geomStep_box_ball {sqrt : K → K} (hs : SqrtSpec sqrt) {zt : K} (hzt : 0 < zt) (n : Nat)
     (xbase : Nat → K) (c : K) (g lower upper : Nat → K) (Δ : K) :
-    let s := geomStep (exactNum sqrt zt) n xbase c g lower upper Δ
+    let s := vget (geomStep (exactNum sqrt zt) n xbase c g lower upper Δ)
     (∀ k < n, minv (lower k - xbase k) (-zt) ≤ s k ∧ s k ≤ maxv (upper k - xbase k) zt) ∧
     sumTo n (fun i => s i * s i) ≤ Δ * Δ := by
   have hmin := trsboxLinear_good hs hzt n g (fun i => lower i - xbase i) (fun i => upper i - xbase i) Δ
   have hmax := trsboxLinear_good hs hzt n (fun i => -(g i)) (fun i => lower i - xbase i) (fun i => upper i - xbase i) Δ
   intro s
-  have : s = geomSmin (exactNum sqrt zt) n xbase g lower upper Δ ∨ s = geomSmax (exactNum sqrt zt) n xbase g lower upper Δ := by
+  have : s = vget (geomSmin (exactNum sqrt zt) n xbase g lower upper Δ) ∨
+         s = vget (geomSmax (exactNum sqrt zt) n xbase g lower upper Δ) := by
     simp only [s, geomStep]
     split_ifs
     · exact Or.inl rfl
@@ -514,6 +538,12 @@ theorem geomStep_box_ball {sqrt : K → K} (hs : SqrtSpec sqrt) {zt : K} (hzt : 
   rcases this with h | h
   · rw [h]; exact ⟨hmin.1, hmin.2.1⟩
   · rw [h]; exact ⟨hmax.1, hmax.2.1⟩
+
+/-- line 715/717: the returned point is `xbase + s`, componentwise. -/
+theorem vget_trsboxGeometry (N : Num K) (n : Nat) (xbase : Nat → K) (c : K) (g lower upper : Nat → K) (Δ : K)
+    (k : Nat) (hk : k < n) :
+    vget (trsboxGeometry N n xbase c g lower upper Δ) k = xbase k + vget (geomStep N n xbase c g lower upper Δ) k := by
+  exact vget_vmk n (fun i => xbase i + vget (geomStep N n xbase c g lower upper Δ) i) k hk
 
 end TrsProofs
 end Dfols
